@@ -4,6 +4,7 @@ import Holpy.C19.Parser
 import Holpy.C19.Linearity
 import Holpy.C19.Rules
 import Holpy.C19.Rules2
+import Holpy.C19.DerivFix
 /-
 Line protocol for the C19 model (one s-expression in, one out).
 
@@ -122,7 +123,7 @@ def handle (line : String) : String :=
     match exprOf e with
     | some e =>
       let v := decAtom v
-      if derivOk v e then toString (Sexp.list [.atom "ok", exprTo (derivM v e)]) else "raises"
+      if derivOk' v e then toString (Sexp.list [.atom "ok", exprTo (derivM' v e)]) else "raises"
     | none => "bad-op"
   | some (.list [.atom "print", e]) =>
     match exprOf e with
